@@ -568,6 +568,9 @@ func (c *Ctx) callName(cl *ssa.Call) string {
 		return "call:" + cl.Common().Method.Name()
 	}
 	n := core.CalleeName(cl.Common())
+	if isSplitAll(cl) {
+		n = "strings.Split" // SplitN with a negative count is Split
+	}
 	n = strings.Replace(n, core.GraphPath+".", "graph.", 1)
 	n = strings.Replace(n, core.ArgPath+".", "", 1)
 	return "call:" + n
